@@ -17,7 +17,7 @@ RULE = ("trajectories of generated worlds (heterogeneous voltages, three-phase m
         "after each run every analysis function is recomputed in plain Python from the recorded rates, the scenario's voltages / "
         "phases / constraint dictionaries and the sessions; constraint subsets are requested in random order; non-trivial = "
         ">=2 distinct voltages and a subset query whose order differs from network order; distinct = history signature + query")
-PROBES = ["subset_reordered", "hetero_voltage", "nema_checked", "nema_zero_mean", "threshold_query", "unserved_session", "requery_after_update_constraint",
+PROBES = ["subset_reordered", "hetero_voltage", "nema_checked", "nema_zero_mean", "threshold_query", "unserved_session", "requery_after_update_constraint", "degenerate_subset_request",
           "magnitudes_flag_true", "complex_return"]
 FAULT_DIMENSION = "none - post-run oracle on recorded trajectories (crash+rerun only diversifies the trajectories)"
 ASSUMPTIONS = ["constraint currents are compared by magnitude (either complex or real return passes)",
@@ -96,6 +96,29 @@ def check(sc):
                             if not close(abs(complex(arr[t])), w, rel=1e-8):
                                 out.add("C18/constraint_currents", "constraint %s t=%d: |%r|, phase-aware weighted sum %r (requested order %s, network order %s)"
                                         % (nm, t, complex(arr[t]), w, subset, names))
+                                break
+                        if out.viol:
+                            break
+                # degenerate request shapes: the empty subset, a repeated id, an id the network does not have; whatever comes
+                # back must be keyed by real constraint names and carry that constraint's own currents
+                if not out.viol:
+                    form = r.choice(["empty", "repeat", "unknown", "none"])
+                    req = {"empty": [], "repeat": [names[0]] + r.sample(names, r.randint(1, len(names))),
+                           "unknown": r.sample(names, r.randint(1, len(names))) + ["no-such-constraint"], "none": None}[form]
+                    if form == "unknown":
+                        r.shuffle(req)
+                    out.probe("degenerate_subset_request")
+                    res3 = analysis.constraint_currents(sim, return_magnitudes=True, constraint_ids=req)
+                    want3 = set(names) if req is None else {x for x in req if x in names}
+                    if set(res3.keys()) != want3:
+                        out.add("C18/constraint_currents_keys", "requested %s (%s), got keys %s, expected %s" % (req, form, sorted(res3.keys()), sorted(want3)))
+                    by = {c["name"]: c for c in cons}
+                    for nm in (sorted(want3) if not out.viol else []):
+                        for t in range(W):
+                            w = abs(sum(by[nm]["coeffs"].get(s, 0) * R[i][t] * cmath.exp(1j * math.radians(PH[i])) for i, s in enumerate(ids)))
+                            if not close(abs(complex(res3[nm][t])), w, rel=1e-8):
+                                out.add("C18/constraint_currents", "request %s (%s): constraint %s t=%d: %r, phase-aware weighted sum %r (network order %s)"
+                                        % (req, form, nm, t, complex(res3[nm][t]), w, names))
                                 break
                         if out.viol:
                             break
